@@ -357,7 +357,7 @@ class RaggedArray:
                     vli, ili = self._append(a, fdv, fdi, vlen+vlenincr)
                     vlenincr += vli
                     ilenincr += ili
-            except Exception as exception:
+            except BaseException as exception:  # also KeyboardInterrupt
                 # keep the subarrays that were completely appended, remove
                 # what was written of the one that failed
                 error = exception
